@@ -44,6 +44,14 @@ CLAIMED = {
          "Structural clauses: every emptiness decision is Payload.isEmpty(p, default=<holder>.getDefault()); countValues/isEmpty/nonEmpty have the stated recursion shape over the raw payload list; mask literals produced by | are exactly those consumers test; Fiber.__eq__ co-iterates the union, rejects each one-sided mask and each unequal pair and accepts only after the loop; Tensor.__eq__ = ids equal and roots equal; the queries are effect-free. Not decided: that equality is an equivalence relation, deep-copy equality, nonEmpty() equal to the original (relations over values).",
          "Trusts: C04 (the union really delivers those masks).",
          "DESIGN.md section 3, C12"),
+ "C08": ("funnel / delegation checks over resolved calls, copy-dominates-transformation on the CFG, index-domain recogniser (position vs ordinal), pass-through checks of the partition builders",
+         "Plumbing every split shares: the four splits and / // go through _splitGeneric after the rankid override; the splitter runs on copy.deepcopy(self); the depth descent stores at true positions; payload objects and coordinate lists pass through the partition builders unchanged (relative coordinates only subtract the partition start); _splitFiber builds lower fibers from the splitter's lists with the split fiber's default and shape. The partition / halo / active-range arithmetic is NOT decided (integer reasoning over run-time coordinates).",
+         "Trusts: the arithmetic inside _SplitterUniform/_splitNonUniform_iter (undecided).",
+         "DESIGN.md section 3, C08"),
+ "C09": ("repo-wide at-most-once-loop rule with sentinel, index-domain recogniser, dispatch-table lifting and key-set comparison across four chains, raw-iteration recogniser on the swizzle DFS",
+         "Structural clauses: no loop of fibertree/ leaves on every path through its body (descent loops visit every child); every loop-indexed element store addresses a true position; the five coordinate styles are handled by all four dispatch chains with equal key sets; swizzleRanks extracts with a raw DFS, permutes through guide and rebuilds ascending through Fiber.append; swapRanks = flatten(pair)/sort reversed/unflatten; every transform returns Tensor.fromFiber(...). Coordinate images, inverse round trips and merge reductions are NOT decided.",
+         "Trusts: sort/bisect semantics; pure merge_fn/trans_fn.",
+         "DESIGN.md section 3, C09"),
 }
 
 NOT_APPLICABLE = {
